@@ -74,6 +74,19 @@ pub struct WildArgs {
     pub rest: Vec<String>,
 }
 
+/// An enum mixing a unit variant and a data-carrying one.  dropshot refuses it as a path parameter
+/// at registration (not scalar); the endpoint below only exists if that refusal ever goes away, and
+/// then a request naming the data-carrying variant must still get a 4xx.
+#[derive(Clone, Debug, PartialEq, Serialize, Deserialize, JsonSchema)]
+pub enum MixedSel {
+    All,
+    Id(u32),
+}
+#[derive(Clone, Debug, PartialEq, Serialize, Deserialize, JsonSchema)]
+pub struct MixedPath {
+    pub sel: MixedSel,
+}
+
 /// wildcard remainders of a non-String element type
 #[derive(Clone, Debug, PartialEq, Serialize, Deserialize, JsonSchema)]
 pub struct ColorWildArgs {
@@ -184,6 +197,7 @@ fn enter(rq: &RequestContext<EchoCtx>) -> Value {
         "method": rq.request.method().as_str(),
         "uri": rq.request.uri().to_string(),
         "hdr_tag": rq.request.headers().get("x-verif-tag").map(|v| String::from_utf8_lossy(v.as_bytes()).to_string()),
+        "hdr_multi": rq.request.headers().get_all("x-verif-multi").iter().map(|v| String::from_utf8_lossy(v.as_bytes()).to_string()).collect::<Vec<_>>(),
         "remote_addr": rq.request.remote_addr().to_string(),
         "request_id": rq.request_id,
         "max_bytes": rq.request_body_max_bytes(),
@@ -239,6 +253,12 @@ async fn ve_wild(rq: RequestContext<EchoCtx>, p: Path<WildArgs>, q: Query<TagQue
         query: serde_json::to_value(q.into_inner()).unwrap(),
         body: Value::Null,
     }))
+}
+
+#[endpoint { method = GET, path = "/e/mixed/{sel}", unpublished = true }]
+async fn ve_mixed(rq: RequestContext<EchoCtx>, p: Path<MixedPath>, q: Query<TagQuery>) -> Result<HttpResponseOk<EchoOut>, HttpError> {
+    let ctx = enter(&rq);
+    Ok(HttpResponseOk(EchoOut { ctx, path: serde_json::to_value(p.into_inner()).unwrap(), query: serde_json::to_value(q.into_inner()).unwrap(), body: Value::Null }))
 }
 
 #[endpoint { method = GET, path = "/e/cwild/{rest:.*}", unpublished = true }]
@@ -390,6 +410,8 @@ pub fn echo_api() -> ApiDescription<EchoCtx> {
     api.register(ve_cwild).unwrap();
     api.register(ve_uwild).unwrap();
     api.register(ve_page).unwrap();
+    // refused on a correct tree ("must have a scalar type"); see MixedSel
+    let _ = crate::core::catch_quiet(|| api.register(ve_mixed).is_ok());
     api.register(ve_json).unwrap();
     api.register(ve_all).unwrap();
     api.register(ve_form).unwrap();
